@@ -17,7 +17,7 @@ hook = [l.split()[0] for l in hook_commits if "verif hook" in l]
 
 manifest = {
     "version": 1,
-    "setup_cmd": "cd /verif/coq && coq_makefile -f _CoqProject -o Makefile && timeout 3000 make -j16",
+    "setup_cmd": "cd /verif && /venv/bin/python tools/gen_alias_table.py && cd coq && coq_makefile -f _CoqProject -o Makefile && timeout 3000 make -j16",
     "hooks": {
         "guard": "NESTED_PANDAS_VERIF",
         "enable": "environment variable NESTED_PANDAS_VERIF=1 (set by /verif/check); pure Python, nothing to build: checks import /repo/src as it is",
